@@ -44,8 +44,10 @@ Ok(i, v)    == [ok |-> TRUE, i |-> i, v |-> v]
 Err(k, sub) == [ok |-> FALSE, err |-> k, sub |-> sub]
 OfTlfErr(t) == Err(t.err, t.sub)
 
-TakeN(x, i, n) ==      \* n: U32 pair
-  IF n.hi > 0 \/ i + n.lo - 1 > Len(x) THEN Err(EEof, 0) ELSE Ok(i + n.lo, SubSeq(x, i, i + n.lo - 1))
+TakeN(x, i, n) ==      \* n: U32 pair; lengths of 2^30 and more exceed every input TLC can hold (and its 32-bit integers)
+  IF n.hi >= 16384 THEN Err(EEof, 0)
+  ELSE LET L == n.hi * 65536 + n.lo IN
+       IF i + L - 1 > Len(x) THEN Err(EEof, 0) ELSE Ok(i + L, SubSeq(x, i, i + L - 1))
 
 ClassOf(L) == IF L = 1 THEN 8 ELSE IF L = 2 THEN 16 ELSE IF L <= 4 THEN 32 ELSE 64
 Extend(b, w, fill) == Rep(fill, w - Len(b)) \o b
